@@ -106,7 +106,8 @@ def judge(case, acc, ctx):
             try:
                 if route == "cli":
                     ok, r = sut.cli_ok(["image", "update", "--input-file", inp, "--storage-output-file", sf, "--dfu-partition-output-file", pf,
-                                        "--update-candidate-info-address", hex(ia), "--dfu-partition-address", str(pa), "--dfu-max-caches", str(n)], d)
+                                        "--update-candidate-info-address", hex(ia) if i % 2 == 0 else str(ia), "--dfu-partition-address", str(pa) if i % 2 == 0 else f"0x{pa:08X}",
+                                        "--dfu-max-caches", st.get("caches_spelling", "{}").format(n)], d)
                     if not ok:
                         raised = RuntimeError(f"CLI exit {r.returncode}: {r.stderr[-200:]}")
                 elif route == "api":
@@ -170,6 +171,18 @@ def run_shard(ctx, spec):
 
     acc = Acc()
     route = spec["route"]
+    if route == "cli":
+        # numbers as scripts print them: zero-padded decimal cache counts (%02d), decimal and upper-case hex addresses
+        for j, (n, fmt) in enumerate([(0, "{:02d}"), (3, "{:03d}"), (8, "{:02d}"), (9, "{:02d}"), (16, "{:03d}"), (6, "{}"), (7, "+{}")]):
+            case = {"steps": [{"size": 40 + j, "salt": j, "fill": "rand", "path": "plain", "paddr": 0x0E100000 + 16 * j, "iaddr": 0x0E1EF340, "caches": n, "caches_spelling": fmt},
+                              {"size": 9, "salt": j, "fill": "ff", "path": "plain", "paddr": 0xFFF8, "iaddr": 0x10000, "caches": n, "caches_spelling": fmt}][: 1 + j % 2],
+                    "route": "cli", "reuse_outputs": True}
+            try:
+                judge(case, acc, ctx)
+                acc.note("cli-number-spellings")
+            except Violation as v:
+                if not any(f["bucket"] == v.bucket for f in acc.failures):
+                    acc.fail("update", case, v.observed, v.expected, bucket=v.bucket)
     same_env = st.booleans()
     strat = st.tuples(st.lists(step_s(), min_size=1, max_size=3), st.booleans(), same_env).map(
         lambda t: {"steps": [dict(x, size=t[0][0]["size"], salt=t[0][0]["salt"], fill=t[0][0]["fill"]) for x in t[0]] if t[2] else t[0], "route": route, "reuse_outputs": t[1] or len(t[0]) > 1})
